@@ -146,7 +146,7 @@ def canon_model_floats(d):
 
 def gen_case(rng, fmt, n=None):
     n = n or rng.randint(1, 6)
-    return {"kind": "seq", "fmt": fmt, "seq": [[rng.choice(["a", "a", "w", "x", "", "A"]), enc(gen_d(rng, f"W{i}"))] for i in range(n)],
+    return {"kind": "seq", "fmt": fmt, "seq": [[rng.choice(["a", "a", "a", "w", "w", "x", "", "A", "a\n", "w\n", " a", "a ", "aw", "wa", "append", "a+", "\na", "а"]), enc(gen_d(rng, f"W{i}"))] for i in range(n)],
             "via": [rng.choice(["dict", "dict", "sdict", "reread", "load", "dump", "proxy"]) for _ in range(n)]}
 
 
